@@ -102,6 +102,65 @@ flow output rails $output_text
 """, ["core", "guardrails"]),
 }
 
+# every notation of a waiting statement on an action event, each watcher in its own interaction loop
+# (so that the watchers' `send` statements do not compete), plus reference notation in `holder`
+_ZOO_WATCH = [
+    ("w_start", "match UtteranceBotAction.Start()", "StartUtteranceBotAction"),
+    ("w_stop", "match UtteranceBotAction.Stop()", "StopUtteranceBotAction"),
+    ("w_started", "match UtteranceBotAction.Started()", "UtteranceBotActionStarted"),
+    ("w_fin", "match UtteranceBotAction.Finished()", "UtteranceBotActionFinished"),
+    ("w_upd", "match UtteranceBotAction.ScriptUpdated()", "UtteranceBotActionScriptUpdated"),
+    ("w_bare_stop", "match StopUtteranceBotAction()", "StopUtteranceBotAction"),
+    ("w_bare_fin", "match UtteranceBotActionFinished()", "UtteranceBotActionFinished"),
+    ("w_flow_started", "match helper.Started()", "Go"),
+    ("w_flow_finished", "match helper.Finished()", "Go"),
+]
+ZOO_EXPECT: dict = {}
+for _i, (_f, _m, _ev) in enumerate(_ZOO_WATCH):
+    ZOO_EXPECT.setdefault(_ev, []).append(f"Seen{_i}")
+MAINS["notation-zoo"] = ("flow main\n" + "".join(f"  activate {f}\n" for f, _, _ in _ZOO_WATCH) + """  activate holder
+  match Never()
+
+flow helper
+  send HelperRan()
+
+@loop("LH")
+flow holder
+  match Go()
+  start helper as $h
+  start UtteranceBotAction(script="x") as $a
+  when $a.Stop()
+    send RefStop()
+  or when $a.Finished()
+    send RefFinished()
+  or when $a.ScriptUpdated()
+    send RefUpd()
+  or when $h.Finished()
+    send RefHelper()
+
+""" + "".join(f'@loop("LW{i}")\nflow {f}\n  {m}\n  send Seen{i}()\n\n' for i, (f, m, _) in enumerate(_ZOO_WATCH)), [])
+
+
+def zoo_monitor(ex, prev, aev, conc, taken, nxt, pops):
+    """A watcher waiting in member notation reacts to the event its statement names."""
+    from vf.engines.v2x import Violation
+
+    if not conc or not isinstance(conc, dict):
+        return
+    got = [e["type"] for e in nxt.state.outgoing_events]
+    want = ZOO_EXPECT.get(conc.get("type"), [])
+    if conc.get("type") == "Go" and "HelperRan" not in got:
+        want = []  # holder was not waiting for Go: the helper flow did not run
+    for m in want:
+        if m not in got:
+            v = Violation("waiting-flow-missed:notation", f"event {conc.get('type')} arrived, the watcher sending {m} did not react (outgoing {got})")
+            if len(ex.side_violations.get("C09", [])) < 5:
+                ex._record(v, prev, aev, taken, into=ex.side_violations.setdefault("C09", []))
+            return
+    if want:
+        ex.stats.bump("c09_notation_reactions", len(want))
+
+
 UTTERANCES = ["hi", "bye", "go", "stop", "zzz"]
 
 
@@ -110,6 +169,9 @@ def alphabet_for(name):
     fixed.append(("ext", "Done", {}))
     if name == "core-or-when":
         fixed.append(("ext", "UtteranceUserActionStarted", {}))
+    if name == "notation-zoo":
+        fixed = [("ext", n, {}) for n in ["Go", "StartUtteranceBotAction", "StopUtteranceBotAction", "ChangeUtteranceBotAction",
+                                          "UtteranceBotActionStarted", "UtteranceBotActionFinished", "UtteranceBotActionScriptUpdated"]]
 
     def alpha(state, node):
         if node.depth == 0:
@@ -146,13 +208,13 @@ def explore(task):
         ex.run()
         return v2x.result_of(ex, {"program": name})
     main, libs = MAINS[name]
-    ex = Explorer(main, alphabet_for(name), monitors=[], depth=depth, extra_sources=[lib(l) for l in libs], max_states=30000)
+    ex = Explorer(main, alphabet_for(name), monitors=[zoo_monitor] if name == "notation-zoo" else [], depth=depth, extra_sources=[lib(l) for l in libs], max_states=30000)
     ex.run()
     return v2x.result_of(ex, {"library_program": name, "libs": libs})
 
 
 def tasks(tier):
-    heavy = {"core-dialog": (4, 6), "guardrails-io": (5, 7)}
+    heavy = {"core-dialog": (4, 6), "guardrails-io": (5, 7), "notation-zoo": (4, 5)}
     out = []
     for n in MAINS:
         q, t = heavy.get(n, (8, 11))
